@@ -70,13 +70,13 @@ Proof. intros b t H. unfold utf8_decode. bdestruct_all. reflexivity. Qed.
 
 (* Either decoding fails with (RuneError, 1), or the decoded bytes are exactly
    the encoding of the scalar value returned. *)
-Lemma decode_spec : forall b t, is_byte b -> is_bytes t ->
+Lemma decode_spec : forall b t,
   let '(r, w) := utf8_decode (b :: t) in
   (r = rune_error /\ w = 1%nat) \/
   (scalar r /\ firstn w (b :: t) = utf8_encode r /\ length (utf8_encode r) = w /\
    (w <= length (b :: t))%nat /\ (b < 0x80 <-> r < 0x80) /\ (r < 0x80 -> r = b)).
 Proof.
-  intros b t Hb Ht. unfold is_byte in Hb. unfold utf8_decode.
+  intros b t. unfold utf8_decode.
   destruct (N.ltb_spec b 0x80).
   { right. unfold scalar, max_rune. rewrite encode_ascii by lia. cbn. repeat split; try lia. }
   destruct (N.ltb_spec b 0xC2); cbn [orb]; [left; split; reflexivity|].
@@ -172,7 +172,7 @@ Proof.
   induction n as [n IH] using lt_wf_ind. intros s Hn Hb Hs.
   destruct s as [|b t]; [constructor|].
   inversion Hb as [|? ? Hb1 Hb2]; subst.
-  pose proof (decode_spec b t Hb1 Hb2) as D.
+  pose proof (decode_spec b t) as D.
   pose proof (decode_width b t) as W.
   destruct (utf8_decode (b :: t)) as [r w] eqn:E.
   destruct D as [[-> ->]|[Hsc [Hf [Hl [Hw _]]]]].
